@@ -11,6 +11,7 @@ import common
 import minif
 from common import driver
 from props import c12_region as R
+from props import c12_calls as K
 
 DELTAS = (1000, -777)
 
@@ -19,6 +20,8 @@ def cases(chk):
     """(source, n_init, nbody) — corpus first, then seeded programs"""
     for path in sorted(glob.glob(os.path.join(common.ROOT, "corpus", "C12", "*.json"))):
         c = json.load(open(path))
+        if c.get("family") == "calls":
+            continue
         yield c["source"], c["n_init"], "corpus:" + os.path.basename(path)
     n = 220 if chk.tier == "thorough" else 28
     for _ in range(n):
@@ -101,6 +104,56 @@ def check_region(parsed, i, j, with_extract=False):
     return conclude(ctx, driver("C12", lines))
 
 
+def call_cases(chk):
+    """kernel sets of the module-variable family: corpus first, then seeded sets"""
+    for path in sorted(glob.glob(os.path.join(common.ROOT, "corpus", "C12", "*.json"))):
+        c = json.load(open(path))
+        if c.get("family") == "calls":
+            yield c["kernels"]
+    n3, n2 = (24, 16) if chk.tier == "thorough" else (3, 3)
+    for _ in range(n3):
+        yield [K.gen_kernel(chk.rng) for _ in range(3)]
+    for _ in range(n2):
+        yield [K.gen_kernel(chk.rng) for _ in range(2)]
+
+
+def run_calls(chk, dist, reported):
+    """second case family: regions over kernels that access module variables, all call orders"""
+    d = dist["calls"] = {"kernel_sets": 0, "invokes": 0, "model_agrees": 0, "merged_inputs_exceed_reference": 0,
+                         "failing_known": {}}
+    for kernels in call_cases(chk):
+        d["kernel_sets"] += 1
+        work = K.Workdir(kernels)
+        for order in K.orders(len(kernels)):
+            try:
+                res = K.check_case(kernels, order, DELTAS, evaluate, work=work)
+            except common.Infra:
+                raise
+            except Exception as e:                               # noqa: BLE001
+                raise common.Infra(f"LFRic call-region case failed to build: {type(e).__name__}: {e}")
+            d["invokes"] += 1
+            agreed = res["model"] == res["real"]
+            d["model_agrees"] += agreed
+            d["merged_inputs_exceed_reference"] += set(res["real"][0]) > set(res["reference_inputs"])
+            case = {"family": "calls", "kernels": kernels, "order": order}
+            chk.case(dict(case, real=res["real"]), nontrivial=bool(res["real"][1]), agreed=agreed)
+            if res["fails"]:
+                kf = classify(res)
+                if kf is not None:
+                    d["failing_known"][kf] = d["failing_known"].get(kf, 0) + 1
+                elif len(reported) < 4 and ("calls", res["fails"][0][0]) not in reported:
+                    reported.add(("calls", res["fails"][0][0]))
+                    chk.violation(dict(case, kind=res["fails"][0][0], observed=res["fails"],
+                                       real_inputs=res["real_all"][0], real_outputs=res["real_all"][1],
+                                       model=res["model"], reference_inputs=res["reference_inputs"],
+                                       expected="with the callee bodies inlined in call order: the region changes only "
+                                                "recorded outputs; stored values are determined by the recorded inputs; "
+                                                "replay from the recorded inputs reproduces the recorded outputs"))
+            if not agreed and len(chk.broken) < 5:
+                chk.correspondence_broken("non-local lists of LFRicExtractTrans differ from RegionData.inputsCalls/"
+                                          "outputsCalls", case, res["model"], res["real"])
+
+
 def classify(res):
     """known-finding id for a failure list, or None (= new)"""
     if not res["fails"]:
@@ -123,15 +176,20 @@ def classify(res):
 
 
 def run(chk):
-    chk.cov["rule"] = ("every consecutive-statement region [i,j) of the body of seeded MiniF routines (3-6 top-level "
+    chk.cov["rule"] = ("FAMILY 1: every consecutive-statement region [i,j) of the body of seeded MiniF routines (3-6 top-level "
                        "statements: element writes, read-modify-writes, scalar temporaries, IF with/without ELSE, "
                        "loops incl. zero-trip/negative step, nesting <=3); non-trivial = region with >=1 write and "
-                       ">=2 variables; distinct by (source, region)")
+                       ">=2 variables; distinct by (source, region).  FAMILY 2: LFRic invokes of 2-3 synthesised kernels reading / "
+                       "writing-first / read-modifying / conditionally writing 1-3 variables (3 scalars, 1 array) of a shared "
+                       "module, every call order, wrapped by the real LFRicExtractTrans (collect_non_local_symbols); "
+                       "non-trivial = some module variable or field is an output")
     chk.assumptions += [
         "MiniF subset: integer scalars and rank<=2 arrays, assignment/IF/DO; every array reference is indexed",
         "the left-hand side variable does not occur in its own subscripts (the real code raises NotImplementedError)",
         "replay stores: the program's own store at region entry vs. the same store with every cell of every "
         "non-input variable shifted by a cell-dependent amount (+1000 / -777 + 31*var + 3*i + 7*j)",
+        "module-variable family: kernels are synthesised from abstract statement lists; the inlined region executes "
+        "one representative element of the field update; fields f1/f2 stand for f1_data/f2_data of the real lists",
         "region execution uses the MiniF semantics (lean/PsyVerif/Model/MiniF.lean, validated against gfortran "
         "by harness/minif_selftest.py), not gfortran"]
     chk.cov["trusted_base"] = ["Lean 4.33.0 kernel", "axioms propext/Classical.choice/Quot.sound only (audited)",
@@ -199,6 +257,9 @@ def run(chk):
         if res["model"] != res["real"] and len(chk.broken) < 5:
             chk.correspondence_broken("get_in_out_parameters differs from RegionData.inOut", case,
                                       res["model"], res["real"])
+    t2 = time.time()
+    run_calls(chk, dist, reported)
+    chk.cov["calls_family_s"] = round(time.time() - t2, 1)
     chk.cov["distribution"] = dist
     # known findings
     for e in common.known_findings("C12"):
@@ -209,7 +270,24 @@ def run(chk):
             chk.known(e["what"])
 
 
+def replay_calls(payload):
+    res = K.check_case(payload["kernels"], payload["order"], DELTAS, evaluate)
+    for n, k in enumerate(payload["kernels"]):
+        print(K.kernel_fortran(K.KN[n], k))
+    print("invoke order:", [K.KN[k] for k in payload["order"]])
+    print("real inputs/outputs (module variables + fields):", res["real_all"], " model:", res["model"],
+          " inputs of the inlined region:", res["reference_inputs"])
+    print("expected:", payload.get("expected", ""))
+    print("observed failures:", res["fails"] or "none")
+    kf = classify(res)
+    if res["fails"] and kf:
+        print("(belongs to known finding", kf + ")")
+    return 1 if res["fails"] and not kf else 0
+
+
 def replay(payload):
+    if payload.get("family") == "calls":
+        return replay_calls(payload)
     parsed = R.Parsed(payload["source"], payload["n_init"])
     i, j = payload["region"]
     res = check_region(parsed, i, j)
